@@ -63,6 +63,11 @@ def async_records(job):
         d = sent[k] if k < len(sent) else {"frame": -1, "bits": w["bits"], "twice": 0, "query": 0, "dt": 0}
         recs.append({"kind": "tx", "drv": drv, "bits": d["bits"], "frame": d["frame"], "twice": d["twice"],
                      "query": d["query"], "dt": d.get("dt", 0), "writes": ws, "exc": "none"})
+    if caller["exc"] != "none" and len(wire) < len(sent):
+        # the send that raised: nothing usable reached the wire for a frame the gateway can carry -> judged by TLC
+        d = sent[len(wire)]
+        recs.append({"kind": "tx", "drv": drv, "bits": d["bits"], "frame": d["frame"], "twice": d["twice"],
+                     "query": d["query"], "dt": d.get("dt", 0), "writes": [], "exc": caller["exc"]})
     seqrec = None
     if drv == "tridonic":
         seqrec = {"kind": "seq", "drv": drv, "sns": [w["seq"] for w in wire]}
@@ -275,7 +280,7 @@ def run(tier, seed, replay=None):
             if seqrec:
                 recs.append(seqrec)
             metas.append(meta)
-        bad = [m for m in metas if m["exc"] != "none" or m["loop"] != "none" or m["nwire"] != m["nsent"]]
+        bad = [m for m in metas if m["loop"] != "none" or (m["exc"] == "none" and m["nwire"] != m["nsent"])]
         recs += unsupported_records()
         recs += sync_records(tier, seed)
         if replay is not None:
